@@ -99,6 +99,8 @@ Definition py_isdecimal (v : pv) : pm pv := lift (ValGen.py_isdecimal v).
 Definition py_startswith (v p : pv) : pm pv := lift (Val.py_startswith v p).
 Definition py_split (v p : pv) : pm pv := lift (Val.py_split v p).
 Definition py_hex (v : pv) : pm pv := lift (Val.py_hex v).
+Definition py_enum_name (tbl : list (Z * str)) (v : pv) : pm pv := lift (Val.py_enum_name tbl v).
+Definition py_lower (v : pv) : pm pv := lift (Val.py_lower v).
 Definition py_encode_ascii (v : pv) : pm pv := lift (Val.py_encode_ascii v).
 Definition py_from_bytes_be (v : pv) : pm pv := lift (Val.py_from_bytes_be v).
 Definition py_fmt_field (v : pv) : pm str := lift (Val.py_fmt_field v).
